@@ -69,14 +69,36 @@ where
 {
     let mut o = Outcome::default();
     let mut g = Gen::new(pu(params, "gseed"));
-    let target = gen_smooth(&mut g, false);
+    let mut target = gen_smooth(&mut g, false);
+    // special cases of "any differentiable target ... whatever the state": a kink (finite density, NaN
+    // gradient at the origin: a chain standing exactly there has no trajectory and must stay), and targets
+    // with a NaN / zero-density region in which some chains START (H(x) NaN: `ln u <= NaN` is false, stay)
+    let special = params.get("special").and_then(|v| v.as_str()).unwrap_or("");
+    if special == "kink" {
+        target = GTarget::new(GKind::Kink, g.usize(1, 4));
+    } else if special == "support" {
+        // log x - x: NaN for x <= 0 in the backend and in the reference alike, with the same finite gradient
+        // 1/x - 1 on both sides (the masked targets of C14 have a backend gradient of 0 outside their support
+        // and are not usable for a trajectory oracle)
+        target = GTarget::new(GKind::HalfLineLog, g.usize(1, 3));
+    }
     let d = target.d;
     let nc = pus(params, "n_chains");
     let l = pus(params, "L");
     let eps = pf(params, "eps");
     let steps = pus(params, "steps");
     let scale0 = pf(params, "start_scale");
-    let init64: Vec<Vec<f64>> = (0..nc).map(|_| (0..d).map(|_| g.normal() * scale0).collect()).collect();
+    let mut init64: Vec<Vec<f64>> = (0..nc).map(|_| (0..d).map(|_| g.normal() * scale0).collect()).collect();
+    if special == "kink" {
+        init64[0] = vec![0.0; d];
+        o.count("probe_chain_on_a_gradient_kink", 1);
+    } else if special == "support" {
+        for (c, row) in init64.iter_mut().enumerate() {
+            let inside = crate::props::c14::support_start(&mut g, &target);
+            *row = if c % 2 == 0 { inside } else { inside.iter().map(|v| -v.abs() - 0.25).collect() };
+        }
+        o.count("probe_chains_started_outside_the_support", (nc / 2) as u64);
+    }
     let init: Vec<Vec<T>> = init64.iter().map(|r| r.iter().map(|x| T::from(*x).unwrap()).collect()).collect();
     let eps_t = T::from(eps).unwrap();
     let eps_used = num_traits::ToPrimitive::to_f64(&eps_t).unwrap();
@@ -189,7 +211,14 @@ where
             let big = if eps_b > 1e-10 { 1e17 } else { 1e150 };
             let ref_finite = rx.iter().chain(rp.iter()).all(|v| v.is_finite() && v.abs() < big) && target.logp(&rx).is_finite() && target.logp(&rx).abs() < big;
             let lp1_ref = target.logp(&rx);
-            if !ref_finite {
+            if (l >= 1 && target.grad(x).iter().any(|v| v.is_nan())) || lp0[c].is_nan() {
+                // no trajectory starts here (undefined force) or H(x) is undefined: the row must stay
+                o.count("probe_row_without_defined_trajectory_or_energy", 1);
+                if moved_flag {
+                    o.violate("moved_without_trajectory", &format!("{site}:moved-although-gradient-or-energy-at-x-is-NaN"), format!("step {step} chain {c}: x = {x:?} has gradient {:?} / log-density {} ({:?}); `ln u <= H - H'` cannot hold, yet the row moved to {:?}", target.grad(x), lp0[c], target.kind, &after[c * d..(c + 1) * d]));
+                    break;
+                }
+            } else if !ref_finite {
                 o.count("probe_reference_overflowed", 1);
                 // only "non-finite or rejected" is required
                 if moved_flag && !(xp.iter().all(|v| v.is_finite()) && lp1[c].is_finite()) {
@@ -394,7 +423,7 @@ impl Scenario for HmcSteps {
             1 | 2 => g.log_uniform(1e-4, 1e-2),
             _ => g.log_uniform(1e-2, 0.5),
         };
-        json!({"float": *g.pick(&["f64", "f64", "f32"]), "gseed": g.u64(), "hseed": g.u64(), "n_chains": g.usize(1, 32).min(if l > 24 { 4 } else { 32 }), "L": l, "eps": fbits(eps), "steps": g.usize(1, 10), "start_scale": fbits(g.log_uniform(0.1, 3.0)), "retune": g.bool(1, 3)})
+        json!({"float": *g.pick(&["f64", "f64", "f32"]), "gseed": g.u64(), "hseed": g.u64(), "n_chains": g.usize(1, 32).min(if l > 24 { 4 } else { 32 }), "L": l, "eps": fbits(eps), "steps": g.usize(1, 10), "start_scale": fbits(g.log_uniform(0.1, 3.0)), "retune": g.bool(1, 3), "special": *g.pick(&["", "", "", "", "", "", "kink", "support"])})
     }
     fn execute(&self, p: &Value, ws: bool) -> Outcome {
         if ps(p, "float") == "f32" {
